@@ -160,6 +160,35 @@ def gen(rng, tier):
                "_nt": True, "_sig": "overlap|%s|%d" % ("+".join(sorted(kinds)), len(src["m"]))}
 
 
+    # existing configs as (part of) the input, after a history of their own (children renamed, attached, removed): what is
+    # normalized is the config as it is now
+    from .. import forest as FO
+    frng = rng.fork("forest")
+    for _ in range(120 if tier == "quick" else 1200):
+        yield FO.history(frng, tier, refs=False, reads=False, flavour="c05")
+
+
+def oracle(case, impl, model):
+    if case.get("k") == "forest":
+        from .. import forest as FO
+        return FO.oracle_for("C05")(case, impl, model)
+    return None
+
+
+def normalize_pair(case, impl, model):
+    if case.get("k") == "forest":
+        from .. import forest as FO
+        return FO.normalize_pair(case, impl, model)
+    return impl, model
+
+
+def fix_candidate(cand, base):
+    if cand.get("k") == "forest":
+        from .. import forest as FO
+        return FO.fix_candidate(cand, base)
+    return cand
+
+
 def nontrivial(case, impl):
     return bool(case.get("_nt"))
 
